@@ -31,6 +31,7 @@ func rulesC17(c *Ctx) {
 	ruleCachedDelegates(c)
 	ruleGetEntriesLookups(c)
 	ruleStatusCompare(c)
+	ruleStatusOptions(c)
 }
 
 // detailKeyFields: the key fields of client.OpDetailsResults (everything except Type).
@@ -584,6 +585,16 @@ func ruleGetEntriesLookups(c *Ctx) {
 		}
 		seenFld[a[k.Table]] = k.Table
 	}
+	// index fill: a key read through the value getter of one arm of a oneof (GetLabelUint64 returns 0 for the
+	// enum arm) files every entry of the other arm under the zero key — the fill must be inside a test that the
+	// key is of that arm
+	fills := oneofArmFills(info, switches[0])
+	c.floor(rule, "index fills keyed by the value getter of a oneof arm", len(fills), 1)
+	for _, msg := range fills {
+		c.Sites++
+		c.check(msg.guarded, rule, fi.Name, "index fill keyed by "+msg.getter+" is guarded by the arm test", c.P.pos(msg.pos), "the fill is inside `_, ok := ….(*"+msg.arm+"); ok` (or the matching type-switch clause)",
+			"the cache is filled under the key "+msg.getter+"(), the value getter of oneof arm "+msg.arm+", without testing that the key is of that arm: an entry keyed by another arm (a reserved-label enum) is filed under key 0, and a wanted label 0 is then found although no such entry was returned")
+	}
 	// lookup: on every path through one iteration of the wants loop, an absent key ends in Fatal and a present one does not
 	// (decided from what the path knows about the lookup's own comma-ok result: a flag that outlives the iteration does not count)
 	{
@@ -901,4 +912,560 @@ func ruleStatusCompare(c *Ctx) {
 		fresh, why = false, "the comparison is not inside a loop over the candidates"
 	}
 	c.check(fresh, rule, fi.Name, "each candidate is compared with a fresh copy of the received status", c.P.pos(cmp.Pos()), "the edited copy is declared inside the innermost loop", why)
+}
+
+type armFill struct {
+	getter, arm string
+	guarded     bool
+	pos         token.Pos
+}
+
+// oneofArmFills finds, inside n, map fills `m[k] = v` whose key calls the value getter of one arm of a
+// protobuf oneof (derived from types: the receiver struct has an interface-typed field and the package
+// declares the wrapper type <Msg>_<Arm> with the single field <Arm>, the method is Get<Arm>), and
+// whether the fill is inside a positive test for that arm.
+func oneofArmFills(info *types.Info, n ast.Node) []armFill {
+	var out []armFill
+	parents := map[ast.Node]ast.Node{}
+	var stack []ast.Node
+	ast.Inspect(n, func(m ast.Node) bool {
+		if m == nil {
+			stack = stack[:len(stack)-1]
+			return true
+		}
+		if len(stack) > 0 {
+			parents[m] = stack[len(stack)-1]
+		}
+		stack = append(stack, m)
+		return true
+	})
+	armOf := func(call *ast.CallExpr) (getter, arm string, recv ast.Expr) {
+		se, ok := ast.Unparen(call.Fun).(*ast.SelectorExpr)
+		if !ok || len(call.Args) != 0 || !strings.HasPrefix(se.Sel.Name, "Get") {
+			return
+		}
+		f, ok := info.ObjectOf(se.Sel).(*types.Func)
+		if !ok || f.Pkg() == nil {
+			return
+		}
+		rt := namedOf(f.Type().(*types.Signature).Recv().Type())
+		if rt == nil {
+			return
+		}
+		st, ok := rt.Underlying().(*types.Struct)
+		if !ok {
+			return
+		}
+		hasOneof := false
+		for i := 0; i < st.NumFields(); i++ {
+			if _, isI := st.Field(i).Type().Underlying().(*types.Interface); isI && strings.Contains(st.Tag(i), "protobuf_oneof") {
+				hasOneof = true
+			}
+		}
+		if !hasOneof {
+			return
+		}
+		an := strings.TrimPrefix(se.Sel.Name, "Get")
+		wn := rt.Obj().Name() + "_" + an
+		if tn, ok := f.Pkg().Scope().Lookup(wn).(*types.TypeName); ok {
+			if ws, ok := tn.Type().Underlying().(*types.Struct); ok && ws.NumFields() == 1 && ws.Field(0).Name() == an {
+				return se.Sel.Name, wn, se.X
+			}
+		}
+		return
+	}
+	ast.Inspect(n, func(m ast.Node) bool {
+		as, ok := m.(*ast.AssignStmt)
+		if !ok || len(as.Lhs) != 1 {
+			return true
+		}
+		ie, ok := ast.Unparen(as.Lhs[0]).(*ast.IndexExpr)
+		if !ok {
+			return true
+		}
+		if _, isMap := info.TypeOf(ie.X).Underlying().(*types.Map); !isMap {
+			return true
+		}
+		ast.Inspect(ie.Index, func(q ast.Node) bool {
+			call, ok := q.(*ast.CallExpr)
+			if !ok {
+				return true
+			}
+			g, arm, recv := armOf(call)
+			if g == "" {
+				return true
+			}
+			af := armFill{getter: g, arm: arm, pos: as.Pos()}
+			// walk outwards looking for the arm test on the same message
+			for p := parents[ast.Node(as)]; p != nil; p = parents[p] {
+				switch x := p.(type) {
+				case *ast.IfStmt:
+					// only when the fill is in the then-branch
+					if !(as.Pos() >= x.Body.Pos() && as.End() <= x.Body.End()) {
+						continue
+					}
+					if ia, ok := x.Init.(*ast.AssignStmt); ok && len(ia.Lhs) == 2 && len(ia.Rhs) == 1 {
+						if ta, ok := ast.Unparen(ia.Rhs[0]).(*ast.TypeAssertExpr); ok && ta.Type != nil {
+							okObj := objOfIdent(info, ia.Lhs[1])
+							if nt := namedOf(info.TypeOf(ta.Type)); nt != nil && nt.Obj().Name() == arm && okObj != nil && objOfIdent(info, x.Cond) == okObj && sameMsg(info, ta.X, recv) {
+								af.guarded = true
+							}
+						}
+					}
+				case *ast.CaseClause:
+					if ts, ok := parents[parents[p]].(*ast.TypeSwitchStmt); ok && len(x.List) == 1 {
+						if nt := namedOf(info.TypeOf(x.List[0])); nt != nil && nt.Obj().Name() == arm && typeSwitchOn(info, ts, recv) {
+							af.guarded = true
+						}
+					}
+				}
+			}
+			out = append(out, af)
+			return true
+		})
+		return true
+	})
+	return out
+}
+
+// sameMsg: x is <recv>.Get<Oneof>() or <recv>.<Oneof> on the same message expression as recv.
+func sameMsg(info *types.Info, x, recv ast.Expr) bool {
+	x = ast.Unparen(x)
+	if call, ok := x.(*ast.CallExpr); ok {
+		if se, ok := ast.Unparen(call.Fun).(*ast.SelectorExpr); ok {
+			return types.ExprString(se.X) == types.ExprString(recv) && rootObj(info, se.X) == rootObj(info, recv)
+		}
+	}
+	if se, ok := x.(*ast.SelectorExpr); ok {
+		return types.ExprString(se.X) == types.ExprString(recv) && rootObj(info, se.X) == rootObj(info, recv)
+	}
+	return false
+}
+
+func rootObj(info *types.Info, e ast.Expr) types.Object {
+	o, _ := selectorPath(info, e)
+	return o
+}
+
+func typeSwitchOn(info *types.Info, ts *ast.TypeSwitchStmt, recv ast.Expr) bool {
+	var x ast.Expr
+	switch a := ts.Assign.(type) {
+	case *ast.AssignStmt:
+		if len(a.Rhs) == 1 {
+			if ta, ok := ast.Unparen(a.Rhs[0]).(*ast.TypeAssertExpr); ok {
+				x = ta.X
+			}
+		}
+	case *ast.ExprStmt:
+		if ta, ok := ast.Unparen(a.X).(*ast.TypeAssertExpr); ok {
+			x = ta.X
+		}
+	}
+	return x != nil && sameMsg(info, x, recv)
+}
+
+// STATUS-OPTIONS: what each option of HasRecvClientErrorWithStatus may relax.
+// AllowUnimplemented adds the bare Unimplemented status as an alternative and
+// strips details only when comparing against that alternative; IgnoreDetails
+// adds the wanted status without details and strips details. A flag that both
+// options can set, used to strip details or to add the details-free want, makes
+// AllowUnimplemented accept the wanted code with any (or no) error details.
+func ruleStatusOptions(c *Ctx) {
+	const rule = "STATUS-OPTIONS"
+	fi := c.need("chk", "", "HasRecvClientErrorWithStatus")
+	if fi == nil {
+		return
+	}
+	info := fi.Pkg.TypesInfo
+	ps := paramObjs(info, fi.Decl)
+	if len(ps) < 4 {
+		c.undecided(rule, fi.Name, "signature", c.P.pos(fi.Decl.Pos()), "unexpected parameters")
+		return
+	}
+	want := ps[2]
+	parents := map[ast.Node]ast.Node{}
+	var stack []ast.Node
+	ast.Inspect(fi.Decl.Body, func(m ast.Node) bool {
+		if m == nil {
+			stack = stack[:len(stack)-1]
+			return true
+		}
+		if len(stack) > 0 {
+			parents[m] = stack[len(stack)-1]
+		}
+		stack = append(stack, m)
+		return true
+	})
+	optName := func(t types.Type) string {
+		if nt := namedOf(t); nt != nil && nt.Obj().Pkg() == fi.Pkg.Types {
+			return nt.Obj().Name()
+		}
+		return ""
+	}
+	flagTypes := map[types.Object]map[string]bool{}
+	// literals of a condition in DNF: each disjunct is a list of literal strings: "flag:<obj>" / "code-unimplemented" / "?"
+	type lit struct {
+		flag types.Object
+		code bool
+		unk  string
+	}
+	var dnf func(e ast.Expr) [][]lit
+	depth := 0
+	dnf = func(e ast.Expr) [][]lit {
+		e = ast.Unparen(e)
+		switch x := e.(type) {
+		case *ast.BinaryExpr:
+			switch x.Op {
+			case token.LOR:
+				return append(dnf(x.X), dnf(x.Y)...)
+			case token.LAND:
+				var out [][]lit
+				for _, a := range dnf(x.X) {
+					for _, b := range dnf(x.Y) {
+						out = append(out, append(append([]lit{}, a...), b...))
+					}
+				}
+				return out
+			case token.EQL:
+				for _, pair := range [][2]ast.Expr{{x.X, x.Y}, {x.Y, x.X}} {
+					if constName(info, pair[1]) == "Unimplemented" {
+						if call, ok := ast.Unparen(pair[0]).(*ast.CallExpr); ok {
+							if f, ok := calleeObj(info, call).(*types.Func); ok && f.Name() == "Code" {
+								return [][]lit{{{code: true}}}
+							}
+						}
+					}
+				}
+			}
+		case *ast.Ident:
+			if o, ok := info.ObjectOf(x).(*types.Var); ok {
+				if b, ok := o.Type().Underlying().(*types.Basic); ok && b.Kind() == types.Bool {
+					// a named condition (x := a && b) stands for its definition
+					if def := soleDefinition(info, fi.Decl, o); def != nil && depth < 4 {
+						if _, isConst := boolConst(info, def); !isConst {
+							depth++
+							r := dnf(def)
+							depth--
+							return r
+						}
+					}
+					return [][]lit{{{flag: o}}}
+				}
+			}
+		}
+		return [][]lit{{{unk: types.ExprString(e)}}}
+	}
+	// the option types (and flags) under which a node executes: list of disjunct-lists, one per enclosing condition
+	type guard struct {
+		opt  string  // option type tested positively
+		cond [][]lit // or a boolean condition
+	}
+	guardsOf := func(n ast.Node) []guard {
+		var out []guard
+		child := n
+		for p := parents[n]; p != nil; child, p = p, parents[p] {
+			switch x := p.(type) {
+			case *ast.IfStmt:
+				if child != ast.Node(x.Body) {
+					continue
+				}
+				if ia, ok := x.Init.(*ast.AssignStmt); ok && len(ia.Lhs) == 2 && len(ia.Rhs) == 1 {
+					if ta, ok := ast.Unparen(ia.Rhs[0]).(*ast.TypeAssertExpr); ok && ta.Type != nil && objOfIdent(info, x.Cond) != nil && objOfIdent(info, x.Cond) == objOfIdent(info, ia.Lhs[1]) {
+						if on := optName(info.TypeOf(ta.Type)); on != "" {
+							out = append(out, guard{opt: on})
+							continue
+						}
+					}
+				}
+				out = append(out, guard{cond: dnf(x.Cond)})
+			case *ast.CaseClause:
+				if _, ok := parents[parents[p]].(*ast.TypeSwitchStmt); ok {
+					for _, te := range x.List {
+						if on := optName(info.TypeOf(te)); on != "" {
+							out = append(out, guard{opt: on})
+						}
+					}
+				}
+			}
+		}
+		return out
+	}
+	// which options can set which flag (fixpoint over flags guarding flags)
+	typesUnder := func(gs []guard) map[string]bool {
+		// the set of options at least one of which must be present for the node to execute; "*" = unconstrained
+		res := map[string]bool{"*": true}
+		for _, g := range gs {
+			cur := map[string]bool{}
+			if g.opt != "" {
+				cur[g.opt] = true
+			} else {
+				for _, dj := range g.cond {
+					djT := map[string]bool{"*": true}
+					for _, l := range dj {
+						if l.flag != nil {
+							if ft := flagTypes[l.flag]; ft != nil && !ft["*"] {
+								if djT["*"] {
+									djT = map[string]bool{}
+									for k := range ft {
+										djT[k] = true
+									}
+								} else {
+									for k := range djT {
+										if !ft[k] {
+											delete(djT, k)
+										}
+									}
+								}
+							}
+						}
+					}
+					for k := range djT {
+						cur[k] = true
+					}
+				}
+			}
+			if cur["*"] {
+				continue
+			}
+			if res["*"] {
+				res = cur
+			} else {
+				for k := range res {
+					if !cur[k] {
+						delete(res, k)
+					}
+				}
+			}
+		}
+		return res
+	}
+	var flagSets []*ast.AssignStmt
+	ast.Inspect(fi.Decl.Body, func(n ast.Node) bool {
+		if as, ok := n.(*ast.AssignStmt); ok && len(as.Lhs) == 1 && len(as.Rhs) == 1 && as.Tok == token.ASSIGN {
+			if b, isB := boolConst(info, as.Rhs[0]); isB && b {
+				if o, ok := objOfIdent(info, as.Lhs[0]).(*types.Var); ok {
+					if bt, ok := o.Type().Underlying().(*types.Basic); ok && bt.Kind() == types.Bool {
+						flagSets = append(flagSets, as)
+					}
+				}
+			}
+		}
+		return true
+	})
+	for round := 0; round < 4; round++ {
+		next := map[types.Object]map[string]bool{}
+		for _, as := range flagSets {
+			o := objOfIdent(info, as.Lhs[0])
+			if next[o] == nil {
+				next[o] = map[string]bool{}
+			}
+			for k := range typesUnder(guardsOf(as)) {
+				next[o][k] = true
+			}
+		}
+		flagTypes = next
+	}
+	only := func(m map[string]bool, opt string) bool { return len(m) == 1 && m[opt] }
+	// (1) every statement that strips the details of the received status
+	var cmp *ast.CallExpr
+	for _, call := range callsIn(fi.Decl.Body) {
+		if f, ok := calleeObj(info, call).(*types.Func); ok && f.Name() == "Equal" && len(call.Args) == 2 {
+			cmp = call
+		}
+	}
+	if cmp == nil {
+		c.vanished(rule, fi.Name, "comparison", "no Equal(…) comparison")
+		return
+	}
+	got := objOfIdent(info, cmp.Args[0])
+	nStrip, nAlt := 0, 0
+	bad := ""
+	ast.Inspect(fi.Decl.Body, func(n ast.Node) bool {
+		as, ok := n.(*ast.AssignStmt)
+		if !ok || len(as.Lhs) != 1 {
+			return true
+		}
+		o, p := selectorPath(info, as.Lhs[0])
+		if o == nil || o != got || len(p) != 1 || p[0] != "Details" {
+			return true
+		}
+		nStrip++
+		// conjunction of the enclosing conditions, as DNF
+		conj := [][]lit{{}}
+		for _, g := range guardsOf(as) {
+			var d [][]lit
+			if g.opt != "" {
+				d = [][]lit{{{unk: "option " + g.opt}}}
+			} else {
+				d = g.cond
+			}
+			var nx [][]lit
+			for _, a := range conj {
+				for _, b := range d {
+					nx = append(nx, append(append([]lit{}, a...), b...))
+				}
+			}
+			conj = nx
+		}
+		for _, dj := range conj {
+			okDj, hasCode := false, false
+			var allowFlag bool
+			for _, l := range dj {
+				if l.code {
+					hasCode = true
+				}
+			}
+			for _, l := range dj {
+				if l.flag == nil {
+					continue
+				}
+				ft := flagTypes[l.flag]
+				if only(ft, "ignoreDetails") {
+					okDj = true
+				}
+				if only(ft, "allowUnimplemented") {
+					allowFlag = true
+				}
+			}
+			if allowFlag && hasCode {
+				okDj = true
+			}
+			if !okDj {
+				var ls []string
+				for _, l := range dj {
+					switch {
+					case l.flag != nil:
+						var ts []string
+						for k := range flagTypes[l.flag] {
+							ts = append(ts, k)
+						}
+						sort.Strings(ts)
+						ls = append(ls, fmt.Sprintf("%s (set under %v)", l.flag.Name(), ts))
+					case l.code:
+						ls = append(ls, "alternative is Unimplemented")
+					default:
+						ls = append(ls, l.unk)
+					}
+				}
+				bad = fmt.Sprintf("the details of the received status are dropped when [%s] (%s): only IgnoreDetails may relax the details of the wanted status, AllowUnimplemented only those of the Unimplemented alternative — otherwise a check passing AllowUnimplemented accepts the wanted code with any ModifyRPCErrorDetails reason", strings.Join(ls, " ∧ "), c.P.pos(as.Pos()))
+			}
+		}
+		return true
+	})
+	// (2) every alternative added to the accepted list
+	var alts types.Object
+	ast.Inspect(fi.Decl.Body, func(n ast.Node) bool {
+		if rs, ok := n.(*ast.RangeStmt); ok && containsNode(rs.Body, cmp) {
+			if o := objOfIdent(info, rs.X); o != nil {
+				if sl, ok := o.Type().Underlying().(*types.Slice); ok && isNamed(sl.Elem(), "google.golang.org/grpc/internal/status", "Status") || ok && strings.HasSuffix(sl.Elem().String(), "status.Status") {
+					alts = o
+				}
+			}
+		}
+		return true
+	})
+	if alts != nil {
+		ast.Inspect(fi.Decl.Body, func(n ast.Node) bool {
+			st, ok := n.(ast.Stmt)
+			if !ok {
+				return true
+			}
+			o, args := appendTarget(info, st)
+			if o != alts {
+				return true
+			}
+			for _, a := range args {
+				nAlt++
+				kind := classifyAlternative(info, fi.Decl, a, want)
+				under := typesUnder(guardsOf(st))
+				switch {
+				case kind == "unimplemented" && only(under, "allowUnimplemented"):
+				case kind == "want-without-details" && only(under, "ignoreDetails"):
+				case kind == "?":
+					bad = fmt.Sprintf("an accepted alternative of unrecognised shape is added (%s): %s", c.P.pos(st.Pos()), types.ExprString(a))
+				default:
+					var ts []string
+					for k := range under {
+						ts = append(ts, k)
+					}
+					sort.Strings(ts)
+					bad = fmt.Sprintf("the alternative %q is accepted under %v (%s): the bare Unimplemented status may be added only by AllowUnimplemented and the wanted status without details only by IgnoreDetails", kind, ts, c.P.pos(st.Pos()))
+				}
+			}
+			return true
+		})
+	}
+	c.Sites += nStrip + nAlt
+	if nStrip < 1 || nAlt < 2 || alts == nil {
+		c.vanished(rule, fi.Name, "relaxations", fmt.Sprintf("found %d detail-stripping statements and %d added alternatives (floors 1 and 2)", nStrip, nAlt))
+		return
+	}
+	c.check(bad == "", rule, fi.Name, "each option relaxes only what it documents", c.P.pos(fi.Decl.Pos()),
+		fmt.Sprintf("%d stripping statements and %d alternatives: details dropped iff IgnoreDetails, or AllowUnimplemented ∧ the alternative is Unimplemented", nStrip, nAlt), bad)
+}
+
+// classifyAlternative: "unimplemented" (a status whose only content is the Unimplemented code),
+// "want-without-details" (a copy of the wanted status with Details cleared), or "?".
+func classifyAlternative(info *types.Info, fd *ast.FuncDecl, e ast.Expr, want types.Object) string {
+	e = ast.Unparen(resolveLocal(info, fd, e))
+	call, ok := e.(*ast.CallExpr)
+	if !ok {
+		return "?"
+	}
+	f, _ := calleeObj(info, call).(*types.Func)
+	if f == nil {
+		return "?"
+	}
+	switch f.Name() {
+	case "New", "Newf":
+		if len(call.Args) >= 1 && constName(info, call.Args[0]) == "Unimplemented" {
+			return "unimplemented"
+		}
+	case "FromProto":
+		if len(call.Args) != 1 {
+			return "?"
+		}
+		a := ast.Unparen(call.Args[0])
+		if cl, ok := unAddr(a).(*ast.CompositeLit); ok {
+			fields := compositeFields(cl)
+			if len(fields) == 1 && fields["Code"] != nil {
+				found := false
+				ast.Inspect(fields["Code"], func(n ast.Node) bool {
+					if ex, ok := n.(ast.Expr); ok && constName(info, ex) == "Unimplemented" {
+						found = true
+					}
+					return true
+				})
+				if found {
+					return "unimplemented"
+				}
+			}
+			return "?"
+		}
+		// a local: cloned from want.Proto(), Details cleared before use
+		if v, ok := objOfIdent(info, a).(*types.Var); ok {
+			def := soleDefinition(info, fd, v)
+			fromWant, cleared := false, false
+			if def != nil {
+				ast.Inspect(def, func(n ast.Node) bool {
+					if id, ok := n.(*ast.Ident); ok && info.ObjectOf(id) == want {
+						fromWant = true
+					}
+					return true
+				})
+			}
+			ast.Inspect(fd.Body, func(n ast.Node) bool {
+				if as, ok := n.(*ast.AssignStmt); ok && len(as.Lhs) == 1 && len(as.Rhs) == 1 {
+					if o, p := selectorPath(info, as.Lhs[0]); o == v && len(p) == 1 && p[0] == "Details" && isNilIdent(info, as.Rhs[0]) {
+						cleared = true
+					}
+				}
+				return true
+			})
+			if fromWant && cleared {
+				return "want-without-details"
+			}
+		}
+	}
+	return "?"
 }
